@@ -240,12 +240,12 @@ def _cut_loop(ver, eng, rep, c, node, st: State, fi, k, invs, desc):
             rs = z3.simplify(r)
             if any(z3.eq(rs, z3.simplify(e)) for e in extra_refs):
                 continue
+            if any(_is_value_of(hs, rs, d) for d in values_of):
+                continue  # (syntactic test first: the solver-backed tests below are expensive when they fail)
             if any(hs.must(rs == e) for e in extra_refs):
                 continue  # the same container reached through a syntactically different (post-havoc) term
             # allocated inside the iteration? then it is not loop state
             if hs.must(rs >= hs.heap.next_ref):
-                continue
-            if any(_is_value_of(hs, rs, d) for d in values_of):
                 continue
             if _consts_of(rs) & fresh_consts:
                 raise Unsupported(f"loop at line {node.lineno} writes a container that depends on the iteration "
